@@ -43,6 +43,14 @@ pub unsafe fn inspect_storage<M: MArch, const N: usize>() {
         i += 1;
     }
     assert!(now.len == present, "C10: len disagrees with the entities present at a panic point");
+    // feature `events`: exactly the entities that are really gone have been logged as destroyed — a
+    // removal that panics and leaves its entity alive must not have logged it (logs start empty here)
+    #[cfg(feature = "events")]
+    {
+        let a = M::arch(world);
+        assert!(a.iter_destroyed().count() + present == pre.len, "C10/C17: at a panic point the destroyed log disagrees with the entities really gone (a destroy that panicked logged its still-alive entity)");
+        assert!(a.iter_created().count() == 0, "C10/C17: a removal logged a creation");
+    }
     cover!(true, "overflow point inside destroy inspected");
 }
 
@@ -109,6 +117,8 @@ pub fn overflow_in_destroy<M: MArch, const N: usize>(kind: u8) {
     let p = m.ent_slot[k] as usize;
     sym::assume(m.slot_ver[p] == u32::MAX || m.version == u32::MAX);
     let mut world = load::<M, N>(&m);
+    #[cfg(feature = "events")]
+    M::reserve_events(M::arch_mut(&mut world), 4);
     let (key, ver) = m.handle_raw(M::ID, k);
     let any = EntityAny::from_raw((key, ver)).ok().unwrap();
     let typed: Entity<M::Arch> = any.try_into().ok().unwrap();
